@@ -317,6 +317,10 @@ def _ws_char(c):
     return z3.Or(*[c == z3.StringVal(w) for w in WS])
 
 
+# richer (sound) facts about strip(), switched on per verified function with hints={'strip_rich': True}: they cost solver time
+STRIP_RICH = False
+
+
 def strip_facts(s):
     """sound (incomplete) facts about str.strip() for the term Strip(s)"""
     r = Strip(s)
@@ -326,6 +330,11 @@ def strip_facts(s):
     s_first = z3.SubString(s, 0, 1)
     s_last = z3.SubString(s, z3.Length(s) - 1, 1)
     extra = []
+    if not STRIP_RICH:
+        return [z3.Contains(s, r),
+                z3.Implies(n > 0, z3.And(z3.Not(_ws_char(first)), z3.Not(_ws_char(last)))),
+                z3.Implies(z3.Or(z3.Length(s) == 0, z3.And(z3.Not(_ws_char(s_first)), z3.Not(_ws_char(s_last)))), r == s),
+                Strip(r) == r]
     if z3.is_app(s) and s.decl().kind() == z3.Z3_OP_SEQ_CONCAT:
         # a concatenation with a literal part that has a non-blank character does not strip to ''
         for ch in s.children():
